@@ -327,6 +327,44 @@ func c16Sessions(c *core.Collector, x *Ctx) {
 			}
 		}
 	}
+	// more than 65 536 chunks for one file (a per-file table with a 16-bit index, a cap on records): 70 000 one-byte chunks of a
+	// 70 010-byte file in shuffled order, three gaps left, then resent
+	{
+		g := gen.G{Rand: core.NewRand(c.Seed, "c16many", 0)}
+		size := 70010
+		p := &attPlan{Kind: "att", Gen: "70 000 one-byte chunks", Dialect: int(gen.Dialects[int(c.Seed)%5]), Phone: "013800004444", Serial0: g.U16(),
+			TermID: core.Hex([]byte("T4")), AlarmID: core.Hex([]byte("many-chunks")), Mode: "single-write", BigWrites: true}
+		f := attFile{Name: core.Hex([]byte("m.bin")), Size: size, ContSd: g.U64(), Type: 1}
+		gaps := map[int]bool{0: true, 1: true, 2: true, 40000: true}
+		for off := 65990; off < 66000; off++ {
+			gaps[off] = true
+		}
+		for off := 70000; off < size; off++ {
+			gaps[off] = true
+		}
+		for _, off := range g.Perm(size) {
+			if !gaps[off] {
+				f.Chunks = append(f.Chunks, [2]int{off, 1})
+			}
+		}
+		f.Resend = [][2]int{{0, 3}, {40000, 1}, {65990, 10}, {70000, 10}}
+		p.Files = []attFile{f}
+		p.Cuts = []int{1 << 30}
+		c.Eval()
+		var viol [][2]string
+		var incon bool
+		if !guard(c, func() any { return map[string]any{"gen": p.Gen} }, func() { viol, incon = attRun(p, false, "") }) {
+			if incon {
+				c.Inconclusive()
+			} else {
+				c.Count("sessions_with_more_than_65536_chunks", 1)
+				c.NonTrivial(core.HashString("c16many"))
+				for _, v := range viol {
+					c.Violate(v[0], v[1]+" ["+p.Gen+"]", map[string]any{"gen": p.Gen, "dialect": p.Dialect, "size": size})
+				}
+			}
+		}
+	}
 	c.Floor("sessions_with_gaps", 300)
 	c.Floor("sessions_with_many_gaps", 10)
 }
